@@ -46,6 +46,8 @@ func (s Step) String() string {
 		return fmt.Sprintf("%sconnect #%d assignerfails=%v", b, s.K, s.Fail)
 	case "call":
 		return fmt.Sprintf("%scall conn #%d nonce %d gate=%v", b, s.K, s.N, s.Gate)
+	case "cbnote":
+		return fmt.Sprintf("%scbnote conn #%d nonce %d (a notification whose handler awaits a callback nobody answers)", b, s.K, s.N)
 	case "release":
 		return fmt.Sprintf("%srelease nonce %d", b, s.K)
 	case "clientclose":
@@ -67,6 +69,7 @@ type Scenario struct {
 	Salt      uint64    `json:"salt,omitempty"`
 	Pins      []sim.Pin `json:"pins,omitempty"`
 	NoHooks   bool      `json:"no_hooks,omitempty"`
+	Push      bool      `json:"push,omitempty"` // the servers are push-enabled (LoopOptions.ServerOptions.AllowPush)
 	Steps     []Step    `json:"steps"`
 }
 
@@ -120,12 +123,20 @@ type lassign struct {
 }
 
 func (a lassign) Assign(ctx context.Context, method string) jrpc2.Handler {
-	if method != "gate" && method != "ret" {
+	if method != "gate" && method != "ret" && method != "cbnote" {
 		return nil
 	}
 	return func(ctx context.Context, req *jrpc2.Request) (any, error) {
 		var p struct{ N int }
 		req.UnmarshalParams(&p)
+		if method == "cbnote" {
+			// sent as a notification: its context does not end when the server
+			// stops, only the pending callback does
+			a.w.log(event{kind: "enter", k: a.id, n: p.N, flag: "note"})
+			_, err := jrpc2.ServerFromContext(ctx).Callback(ctx, "cb", nil)
+			a.w.log(event{kind: "exit", k: a.id, n: p.N, flag: "note", err: fmt.Sprint(err)})
+			return nil, nil
+		}
 		a.w.log(event{kind: "enter", k: a.id, n: p.N})
 		defer func() { a.w.log(event{kind: "exit", k: a.id, n: p.N, err: fmt.Sprint(ctx.Err())}) }()
 		if method == "ret" {
@@ -312,7 +323,11 @@ func run(t *testing.T, sc Scenario) engine.Verdict {
 			}
 			loopDone := make(chan struct{})
 			go func() {
-				err := server.Loop(ctx, theAccepter, newService, nil)
+				var lopts *server.LoopOptions
+				if sc.Push {
+					lopts = &server.LoopOptions{ServerOptions: &jrpc2.ServerOptions{AllowPush: true}}
+				}
+				err := server.Loop(ctx, theAccepter, newService, lopts)
 				e := event{kind: "loopret"}
 				switch {
 				case err == nil:
@@ -431,6 +446,14 @@ func run(t *testing.T, sc Scenario) engine.Verdict {
 							method = "gate"
 						}
 						rec := fmt.Sprintf(`{"jsonrpc":"2.0","id":%d,"method":%q,"params":{"N":%d}}`, st.N, method, st.N)
+						select {
+						case c.sendQ <- []byte(rec):
+						default:
+						}
+					}
+				case "cbnote":
+					if c := conns[st.K]; c != nil {
+						rec := fmt.Sprintf(`{"jsonrpc":"2.0","method":"cbnote","params":{"N":%d}}`, st.N)
 						select {
 						case c.sendQ <- []byte(rec):
 						default:
@@ -660,7 +683,9 @@ func run(t *testing.T, sc Scenario) engine.Verdict {
 		for _, e := range evs {
 			switch e.kind {
 			case "enter":
-				parked[e.n] = true
+				if e.flag != "note" {
+					parked[e.n] = true
+				}
 			case "exit":
 				if e.err != "<nil>" {
 					seen[e.n] = true
@@ -789,6 +814,8 @@ func genScenario(t *rapid.T) Scenario { return genScenarioMode(t, false) }
 
 func genScenarioMode(t *rapid.T, netMode bool) Scenario {
 	sc := Scenario{Salt: rapid.Uint64().Draw(t, "salt"), Net: netMode}
+	pushMode := rapid.IntRange(0, 2).Draw(t, "pushmode") == 0
+	sc.Push = pushMode
 	if netMode && rapid.IntRange(0, 7).Draw(t, "precancel") == 0 {
 		sc.PreCancel = true
 	}
@@ -820,6 +847,9 @@ func genScenarioMode(t *rapid.T, netMode bool) Scenario {
 			if !st.Fail && st.RecvFailAt != 1 {
 				open = append(open, nconn)
 			}
+		case roll < 55 && len(open) > 0 && pushMode && rapid.IntRange(0, 3).Draw(t, "cbnote") == 0:
+			nonce++
+			st = Step{Op: "cbnote", K: rapid.SampledFrom(open).Draw(t, "conn"), N: nonce}
 		case roll < 55 && len(open) > 0:
 			nonce++
 			st = Step{Op: "call", K: rapid.SampledFrom(open).Draw(t, "conn"), N: nonce, Gate: rapid.Bool().Draw(t, "gate")}
